@@ -200,8 +200,12 @@ class stDAG(AbstractSourceSinkGraph):
                 edge_demand = weight_function.get((u, v), 0)
 
             demand[(u, v)] = edge_demand
-            # adding the edge
-            G_nx.add_edge(u, v, l=demand[(u, v)], u=graphutils.bigNumber, c=cost)
+
+        # "infinite" capacity: must dominate the flow on any edge of a minimum flow
+        capacity = max(graphutils.bigNumber, sum(demand.values()) + 1)
+        for u, v in self.edges():
+            cost = 1 if u == self.source else 0
+            G_nx.add_edge(u, v, l=demand[(u, v)], u=capacity, c=cost)
 
         minFlowCost, minFlow = graphutils.min_cost_flow(G_nx, self.source, self.sink)
 
